@@ -29,7 +29,7 @@ impl Kind {
       Kind::Ymd => "years-and-months-duration",
     }
   }
-  fn function(&self) -> &'static str {
+  pub fn function(&self) -> &'static str {
     match self {
       Kind::Date => "date",
       Kind::Time => "time",
